@@ -147,13 +147,19 @@ pub fn judge(c: &Case, st: &mut Stats) -> Verdict {
     let d4 = SocketAddr::V4(SocketAddrV4::new(da4, dp));
     let s6 = SocketAddr::V6(SocketAddrV6::new(sa6, sp, c.flow[0], c.scope[0]));
     let d6 = SocketAddr::V6(SocketAddrV6::new(da6, dp, c.flow[1], c.scope[1]));
-    match (v1::Addresses::from((s4, d4)), v2::Addresses::from((s4, d4))) {
-        (v1::Addresses::Tcp4(x), v2::Addresses::IPv4(y)) if ok4(&x) && ok4(&y) && x == y => {}
-        o => return fail("From<(SocketAddr::V4, SocketAddr::V4)>", want4, format!("{:?}", o)),
+    // each pair is converted three times in a row (a relay converts the same flow for every packet; while other
+    // threads convert theirs)
+    for _ in 0..3 {
+        match (v1::Addresses::from((s4, d4)), v2::Addresses::from((s4, d4))) {
+            (v1::Addresses::Tcp4(x), v2::Addresses::IPv4(y)) if ok4(&x) && ok4(&y) && x == y => {}
+            o => return fail("From<(SocketAddr::V4, SocketAddr::V4)>", want4, format!("{:?}", o)),
+        }
     }
-    match (v1::Addresses::from((s6, d6)), v2::Addresses::from((s6, d6))) {
-        (v1::Addresses::Tcp6(x), v2::Addresses::IPv6(y)) if ok6(&x) && ok6(&y) && x == y => {}
-        o => return fail("From<(SocketAddr::V6, SocketAddr::V6)>", want6, format!("{:?}", o)),
+    for _ in 0..3 {
+        match (v1::Addresses::from((s6, d6)), v2::Addresses::from((s6, d6))) {
+            (v1::Addresses::Tcp6(x), v2::Addresses::IPv6(y)) if ok6(&x) && ok6(&y) && x == y => {}
+            o => return fail("From<(SocketAddr::V6, SocketAddr::V6)>", want6, format!("{:?}", o)),
+        }
     }
     for (a, b) in [(s4, d6), (s6, d4)] {
         match (v1::Addresses::from((a, b)), v2::Addresses::from((a, b))) {
